@@ -437,6 +437,11 @@ def gen_history(rng, focus, nops, hcfg):
         if focus == 'residue' and r < 0.35:
             ops.append(('stray', rng.choice([b'\x51\x01', b'\x7e\x00', b'\x7f\x11\x22', b'\x76\x01', b'\x50\x03\x00\x19\x00\xc8', b'\x67\x03\x01\x02', bytes(rng.randrange(256) for _ in range(3))])))
             meta.append({}); continue
+        if focus == 'unlock' and 0.6 <= r < 0.72:
+            # a frame nobody asked for sits in the receive queue when the next call starts - a seed reply delivered twice, a late key acknowledgement
+            ops.append(('stray', rng.choice([b'\x67\x01\x11\x22', b'\x67\x03\xAA\xBB\xCC\xDD', b'\x67\x05\x01', b'\x67\x7d\x09\x08', b'\x67\x11\x01\x02\x03\x04', b'\x67\x02', b'\x67\x04', b'\x7f\x27\x35',
+                                              b'\x67\x3f\x10\x20'])))
+            meta.append({}); continue
         if focus == 'unlock' and r < 0.6 or (focus != 'unlock' and r > 0.93):
             level = rng.choice([1, 2, 3, 4, 5, 0x11, 0x7D, 0x7E, 0x3F]) if rng.random() < 0.92 else rng.choice([0, 0x7F])
             sp = rng.choice([b'', b'', b'\x01\x02'])
